@@ -86,6 +86,17 @@ theorem checkWindowTimeout_open {s : St} {w : Window} (h : (checkWindowTimeout s
 @[simp] theorem evictOne_marker (s : St) (v : Option VClass) : (evictOne s v).marker = s.marker := by
   unfold evictOne; split <;> rfl
 
+@[simp] theorem recordFailure_fresh (s : St) : (recordFailure s).fresh = s.fresh := by
+  unfold recordFailure; simp only; splits
+@[simp] theorem removeTask_fresh (s : St) (x : Nat) : (removeTask s x).fresh = s.fresh := rfl
+@[simp] theorem setTask_fresh (s : St) (t : Task) : (setTask s t).fresh = s.fresh := rfl
+@[simp] theorem failTask_fresh (s : St) (x : Nat) : (failTask s x).fresh = s.fresh := by simp [failTask]
+@[simp] theorem updateSessionTimeout_fresh (s : St) (x : Nat) (n : Bool) :
+    (updateSessionTimeout s x n).1.fresh = s.fresh := by
+  unfold updateSessionTimeout; simp only; splits
+@[simp] theorem evictOne_fresh (s : St) (v : Option VClass) : (evictOne s v).fresh = s.fresh := by
+  unfold evictOne; split <;> rfl
+
 /-- everything but the table -/
 def SameCore (a b : St) : Prop :=
   a.sessions = b.sessions ∧ a.window = b.window ∧ a.tasks = b.tasks ∧ a.now = b.now ∧ a.marker = b.marker ∧
@@ -269,7 +280,12 @@ theorem session_only_in_open_window (s : St) (op : Op) (sess : Sess)
       exact ⟨rfl, rfl, w, hw, hexp⟩
 
 /-- wrong passcode, another transcript, another share, or bytes that are no confirmation value at
-all: no session -/
+all: no session. In the symbolic model this is the responder's equality test `c = mac exp` read
+contrapositively; `wrong_passcode_never`, `replayed_never`, `mutated_never` are its instances and
+*assume* that the received value differs from the expected one in the named component. That a value
+taken from **another handshake** does differ - without assuming it - is
+`C02Hist.replay_across_handshakes_refused`, `replay_of_completed_handshake_refused`,
+`replay_from_earlier_handshake_refused` (freshness of the responder share). -/
 theorem wrong_proof_never (s : St) (x : Nat) (c : CA)
     (h : ∀ t exp wid, findTask s x = some t → t.stage = .waitPake3 exp wid → c ≠ .mac exp) :
     (step s (.pake3 x c)).1.sessions = s.sessions := by
@@ -311,14 +327,28 @@ theorem failure_leaves_no_session (s : St) (op : Op) (h : (step s op).2 ≠ .sta
       · simp [hw]
     simp only [step, ht, hnone, hst, hcw, hid]
     simp
+/-- what a Pake1 with a valid prover share does on a live handshake that holds the marker while a
+window is open: the responder draws a fresh share `pB` and from now on expects exactly
+`Conf (window's passcode class) (its transcript) (the received share) pB` -/
+theorem pake1_valid_step (s : St) (x a ctx : Nat) (t0 : Task) (w : Window)
+    (ht0 : findTask s x = some t0) (hnone : (updateSessionTimeout s x false).2 = none)
+    (hctx : t0.stage = .waitPake1 ctx)
+    (hw : (checkWindowTimeout (updateSessionTimeout s x false).1).window = some w) :
+    (step s (.pake1 x (.valid a))).2 = .pake2 s.fresh ∧ (step s (.pake1 x (.valid a))).1.fresh = s.fresh + 1 := by
+  simp only [step, ht0, hnone, hctx, hw]
+  simp
+
 /-- **A handshake gets as far as expecting Pake3 only through a Pake1 carrying a valid prover share,
 received while a window is present and unexpired; the value it will then accept is bound to that
-window's passcode class, the handshake's own transcript and both shares.** -/
+window's passcode class (`exp.pw`), the handshake's own transcript (`exp.ctx`), the received share
+(`exp.pA`) and a responder share that is drawn at that very step and has never been used before
+(`exp.pB = s.fresh`, after the step `fresh = s.fresh + 1`).** -/
 theorem waitPake3_only_by_valid_pake1 (s : St) (op : Op) (t : Task) (exp : Conf) (wid : Nat)
     (ht : t ∈ (step s op).1.tasks) (hst : t.stage = .waitPake3 exp wid) :
     t ∈ s.tasks ∨
     ∃ a ctx w t0, op = .pake1 t.exch (.valid a) ∧ findTask s t.exch = some t0 ∧ t0.stage = .waitPake1 ctx ∧
-      s.window = some w ∧ s.now ≤ w.expiry ∧ exp.pw = w.pw ∧ exp.ctx = ctx ∧ exp.pA = a ∧ wid = w.id := by
+      s.window = some w ∧ s.now ≤ w.expiry ∧ exp.pw = w.pw ∧ exp.ctx = ctx ∧ exp.pA = a ∧ wid = w.id ∧
+      exp.pB = s.fresh ∧ (step s op).1.fresh = s.fresh + 1 := by
   cases op with
   | openWin pw secs =>
     left; simp only [step, openWinCore] at ht
@@ -374,7 +404,8 @@ theorem waitPake3_only_by_valid_pake1 (s : St) (op : Op) (t : Task) (exp : Conf)
     · rename_i t0 ht0
       split at ht
       · left; simpa using mem_removeTask ht
-      · split at ht
+      · rename_i hnone
+        split at ht
         · left; simpa using mem_failTask ht
         · rename_i ctx hctx
           split at ht
@@ -390,12 +421,14 @@ theorem waitPake3_only_by_valid_pake1 (s : St) (op : Op) (t : Task) (exp : Conf)
                   simp only at hst
                   injection hst with hst hwid
                   obtain ⟨hw1, hw2⟩ := checkWindowTimeout_open hw
-                  refine ⟨a, ctx, w, t0, rfl, ht0, hctx, ?_, ?_, ?_, ?_, ?_, hwid.symm⟩
+                  refine ⟨a, ctx, w, t0, rfl, ht0, hctx, ?_, ?_, ?_, ?_, ?_, hwid.symm, ?_,
+                    (pake1_valid_step s x a ctx t0 w ht0 hnone hctx hw).2⟩
                   · simpa using hw1
                   · simpa using hw2
                   · rw [← hst]
                   · rw [← hst]
                   · rw [← hst]
+                  · rw [← hst]; simp
                 · left; simpa using h
               · left; simpa using mem_failTask ht
   | pake3 x c =>
@@ -418,7 +451,9 @@ theorem waitPake3_only_by_valid_pake1 (s : St) (op : Op) (t : Task) (exp : Conf)
     left
     simp only [step] at ht
     split at ht
-    · exact ht
+    · split at ht
+      · simpa using ht
+      · exact ht
     · simpa using mem_failTask ht
 theorem step_winInv (s : St) (op : Op) (h : WinInv s.window) : WinInv (step s op).1.window := by
   have h0 : (0 : Nat) < maxFailures := by decide
@@ -548,8 +583,12 @@ theorem failed_proof_counted (s : St) (x : Nat) (c : CA) (t : Task) (exp : Conf)
   · simp only [hc, if_false, failTask, recordFailure_window, removeTask_window,
       updateSessionTimeout_window, hw, beq_self_eq_true, Bool.not_true, Bool.false_eq_true]
 
-/-- **Advertised ⇔ window present** (`Matter::mdns_services` publishes the commissionable record
-exactly when `Pase::comm_window()` is `Some`), and one poll after the expiry the record is gone. -/
+/-- **Advertised ⇔ window present**: this is the *definition* of `advertised` (`Iff.rfl`), a
+transliteration of `Matter::mdns_services`, which publishes the commissionable record exactly when
+`Pase::comm_window()` is `Some`; it is tied to the code by the differential harness, not proved.
+The content is in `poll_closes_expired` (one poll after the expiry the record is gone) and in
+`C02Hist.advertised_at_most_one_poll_after_expiry` (with the 1 s poll: an advertised node's window
+expired less than one polling period ago). -/
 theorem advertised_iff_open (s : St) : advertised s = true ↔ s.window.isSome = true := Iff.rfl
 
 theorem poll_closes_expired (s : St) (w : Window) (h : (step s .poll).1.window = some w) :
@@ -759,22 +798,13 @@ theorem cmd_replaces_expired_window (s : St) (w : Window) (hw : s.window = some 
 
 /-! ## The proof a session rests on is a proof for the verifier of the window that is open -/
 
-@[simp] theorem recordFailure_fresh (s : St) : (recordFailure s).fresh = s.fresh := by
-  unfold recordFailure; simp only; splits
-@[simp] theorem removeTask_fresh (s : St) (x : Nat) : (removeTask s x).fresh = s.fresh := rfl
-@[simp] theorem setTask_fresh (s : St) (t : Task) : (setTask s t).fresh = s.fresh := rfl
-@[simp] theorem failTask_fresh (s : St) (x : Nat) : (failTask s x).fresh = s.fresh := by simp [failTask]
-@[simp] theorem updateSessionTimeout_fresh (s : St) (x : Nat) (n : Bool) :
-    (updateSessionTimeout s x n).1.fresh = s.fresh := by
-  unfold updateSessionTimeout; simp only; splits
-@[simp] theorem evictOne_fresh (s : St) (v : Option VClass) : (evictOne s v).fresh = s.fresh := by
-  unfold evictOne; split <;> rfl
 
 /-- `b` is the window `a`, possibly closed meanwhile or with more failures counted: never another one -/
 def WinKeep (a b : Option Window) : Prop :=
-  ∀ w', b = some w' → ∃ w, a = some w ∧ w'.id = w.id ∧ w'.pw = w.pw ∧ w'.expiry = w.expiry
+  ∀ w', b = some w' → ∃ w, a = some w ∧ w'.id = w.id ∧ w'.pw = w.pw ∧ w'.expiry = w.expiry ∧
+    w.failures ≤ w'.failures
 
-theorem winKeep_refl (a : Option Window) : WinKeep a a := fun w' h => ⟨w', h, rfl, rfl, rfl⟩
+theorem winKeep_refl (a : Option Window) : WinKeep a a := fun w' h => ⟨w', h, rfl, rfl, rfl, Nat.le_refl _⟩
 theorem winKeep_none (a : Option Window) : WinKeep a none := fun _ h => by cases h
 
 theorem winKeep_check {a : Option Window} {s : St} (h : WinKeep a s.window) :
@@ -795,9 +825,9 @@ theorem winKeep_record {a : Option Window} {s : St} (h : WinKeep a s.window) :
     · exact winKeep_none a
     · intro w' hw'
       injection hw' with hw'
-      obtain ⟨w0, h0, h1, h2, h3⟩ := h w hw
+      obtain ⟨w0, h0, h1, h2, h3, h4⟩ := h w hw
       subst hw'
-      exact ⟨w0, h0, h1, h2, h3⟩
+      exact ⟨w0, h0, h1, h2, h3, Nat.le_succ_of_le h4⟩
   · exact winKeep_none a
 
 theorem winKeep_fail {a : Option Window} {s : St} {x : Nat} (h : WinKeep a s.window) :
@@ -856,7 +886,8 @@ whose identity is fresh -/
 theorem step_window_frame (s : St) (op : Op) :
     WinKeep s.window (step s op).1.window ∨
     (∃ w', (step s op).1.window = some w' ∧ w'.id = s.fresh ∧
-      (step s op).1.fresh = s.fresh + 1 ∧ (step s op).1.tasks = s.tasks) := by
+      (step s op).1.fresh = s.fresh + 1 ∧ (step s op).1.tasks = s.tasks ∧
+      s.now ≤ w'.expiry ∧ w'.failures = 0) := by
   cases op with
   | openWin pw secs =>
     simp only [step, openWinCore]
@@ -865,7 +896,7 @@ theorem step_window_frame (s : St) (op : Op) :
     · split
       · left; exact winKeep_refl _
       · right
-        exact ⟨_, rfl, rfl, rfl, rfl⟩
+        exact ⟨_, rfl, rfl, rfl, rfl, Nat.le_add_right _ _, rfl⟩
   | openEnh pw secs sl it d =>
     simp only [step, openEnhCore]
     split
@@ -875,21 +906,21 @@ theorem step_window_frame (s : St) (op : Op) :
       · split
         · left; exact winKeep_refl _
         · right
-          exact ⟨_, rfl, rfl, rfl, rfl⟩
+          exact ⟨_, rfl, rfl, rfl, rfl, Nat.le_add_right _ _, rfl⟩
   | cmdOpenEnh pw secs sl it d vl =>
     simp only [step, openEnhCore]
     repeat' split
     all_goals first
       | (left; exact winKeep_refl _)
       | (left; exact winKeep_check (winKeep_refl _))
-      | (right; exact ⟨_, rfl, by simp, by simp, by simp⟩)
+      | (right; exact ⟨_, rfl, by simp, by simp, by simp, by simp, rfl⟩)
   | cmdOpenBasic pw secs =>
     simp only [step, openWinCore]
     repeat' split
     all_goals first
       | (left; exact winKeep_refl _)
       | (left; exact winKeep_check (winKeep_refl _))
-      | (right; exact ⟨_, rfl, by simp, by simp, by simp⟩)
+      | (right; exact ⟨_, rfl, by simp, by simp, by simp, by simp, rfl⟩)
   | revoke => left; exact winKeep_none _
   | tick ms => left; exact winKeep_refl _
   | poll => left; exact winKeep_check (winKeep_refl _)
@@ -942,6 +973,7 @@ theorem step_window_frame (s : St) (op : Op) :
     all_goals first
       | exact winKeep_refl _
       | (apply winKeep_fail; exact winKeep_refl _)
+      | (apply winKeep_record; exact winKeep_refl _)
   | rxTimeout x =>
     left
     simp only [step]
@@ -957,7 +989,10 @@ theorem findTask_mem {s : St} {x : Nat} {t : Task} (h : findTask s x = some t) :
   exact ⟨List.mem_of_find?_eq_some h, by simpa using List.find?_some h⟩
 
 /-- window identities are fresh, and what a handshake that expects Pake3 will accept is a proof for
-the verifier of the window whose identity it remembered -/
+the verifier of the window whose identity it remembered. `task_lt` / `win_lt` hold of reachable
+states **because the model draws window ids from the counter `fresh`** - the idealisation "window ids
+never repeat" (in the code: `mdns_id`, a random u64 or a caller-supplied value; Pake3 compares only
+this id). Without it `bound` fails: `C02Hist.widInv_necessary`. -/
 structure WidInv (s : St) : Prop where
   task_lt : ∀ t ∈ s.tasks, ∀ exp wid, t.stage = .waitPake3 exp wid → wid < s.fresh
   win_lt : ∀ w, s.window = some w → w.id < s.fresh
@@ -975,19 +1010,19 @@ theorem step_widInv (s : St) (op : Op) (h : WidInv s) : WidInv (step s op).1 := 
     waitPake3_only_by_valid_pake1 s op t exp wid h1 h2
   refine ⟨?_, ?_, ?_⟩
   · intro t h1 exp wid h2
-    rcases ht t exp wid h1 h2 with hold | ⟨a, ctx, w, t0, _, _, _, hwin, _, _, _, _, hwid⟩
+    rcases ht t exp wid h1 h2 with hold | ⟨a, ctx, w, t0, _, _, _, hwin, _, _, _, _, hwid, _, _⟩
     · exact Nat.lt_of_lt_of_le (h.task_lt t hold exp wid h2) hf
     · rw [hwid]; exact Nat.lt_of_lt_of_le (h.win_lt w hwin) hf
   · intro w' hw'
-    rcases hw with hk | ⟨w2, hw2, hid, hfr, _⟩
+    rcases hw with hk | ⟨w2, hw2, hid, hfr, _, _, _⟩
     · obtain ⟨w, h0, h1, _, _⟩ := hk w' hw'
       rw [h1]; exact Nat.lt_of_lt_of_le (h.win_lt w h0) hf
     · rw [hw2] at hw'; injection hw' with hw'; subst hw'
       rw [hid, hfr]; exact Nat.lt_succ_self _
   · intro t h1 exp wid w' h2 hw' hid'
-    rcases hw with hk | ⟨w2, hw2, hid, _, htasks⟩
+    rcases hw with hk | ⟨w2, hw2, hid, _, htasks, _, _⟩
     · obtain ⟨w, h0, hi, hp, _⟩ := hk w' hw'
-      rcases ht t exp wid h1 h2 with hold | ⟨a, ctx, w1, t0, _, _, _, hwin, _, hpw, _, _, hwid⟩
+      rcases ht t exp wid h1 h2 with hold | ⟨a, ctx, w1, t0, _, _, _, hwin, _, hpw, _, _, hwid, _, _⟩
       · rw [hp]; exact h.bound t hold exp wid w h2 h0 (by rw [← hi]; exact hid')
       · rw [hwin] at h0; injection h0 with h0; subst h0
         rw [hp]; exact hpw
@@ -1018,7 +1053,8 @@ theorem run_widInv (s : St) (ops : List Op) (h : WidInv s) : WidInv (run s ops) 
   | nil => exact h
   | cons o os ih => exact ih _ (step_widInv s o h)
 
-/-- … in every history from the initial state -/
+/-- … in every history of operations from the initial state (histories with duplicated / re-sent
+datagrams: `C02Hist.proof_is_for_the_open_window_ev`) -/
 theorem proof_is_for_the_open_window_hist (ops : List Op) (op : Op) (sess : Sess)
     (hnew : sess ∈ (step (run {} ops) op).1.sessions) (hold : sess ∉ (run {} ops).sessions) :
     ∃ w, (run {} ops).window = some w ∧ (run {} ops).now ≤ w.expiry ∧ sess.conf.pw = w.pw :=
@@ -1524,7 +1560,9 @@ theorem step_tableInv (s : St) (op : Op) (h : TableInv s) : TableInv (step s op)
   | dead x =>
     simp only [step]
     split
-    · exact h
+    · split
+      · exact ⟨by simpa using h.reserved_iff, by simp, by simpa using h.cap⟩
+      · exact h
     · exact tableInv_failTask h rfl rfl
   | rxTimeout x =>
     simp only [step]
@@ -1818,7 +1856,9 @@ theorem step_holder (s : St) (op : Op) (h : HolderInv s) : HolderInv (step s op)
   | dead x =>
     simp only [step]
     split
-    · exact h
+    · split
+      · exact holder_none (by simp)
+      · exact h
     · exact holder_none (by simp)
   | rxTimeout x =>
     simp only [step]
@@ -1833,12 +1873,17 @@ theorem run_holder (s : St) (ops : List Op) (h : HolderInv s) : HolderInv (run s
   | nil => exact h
   | cons o os ih => exact ih _ (step_holder s o h)
 
-/-- **In every history, the marker of a handshake whose peer advertised no session parameters is
-still valid whenever its receive timer can fire**: from the responder's last answer the timer fires
-within `rx_timeout_ms` + one ladder = 42678 ms, the marker runs 60000 ms. So a handshake that idles
-is ended by the receive timeout and *charged as a failure* - the marker's own expiry (which would
-answer `SessionNotFound` without charging) is never reached by such a handshake. -/
-theorem idle_handshake_charged_before_marker_expires (ops : List Op) (x : Nat) (t : Task) (m : Marker)
+/-- **The receive timer of a handshake whose peer advertised no session parameters comes before the
+marker's expiry** (arithmetic on the extracted constants + `HolderInv`): in every history of
+operations, from the responder's last answer the timer fires within `rx_timeout_ms` + one ladder =
+42678 ms, the marker runs 60000 ms, so the marker is still valid at every instant at which that
+timer can fire. What the theorem does *not* say: that the timer fires (that is the environment's
+move `rxTimeout`; its effect - the failure is charged - is `rxTimeout_charges`), and anything about
+peers that advertise slower MRP parameters: with SAI = 1000 ms the receive timeout is 84936 ms, the
+marker expires first and the stalled handshake ends *uncharged* with `SessionNotFound` - no proof
+was examined (`C02Hist.stale_marker_message_not_examined`, general form
+`C02Hist.rx_timer_fires_before_marker_expires`). (Formerly `idle_handshake_charged_before_marker_expires`.) -/
+theorem rx_timer_fires_before_marker_expires_default_mrp (ops : List Op) (x : Nat) (t : Task) (m : Marker)
     (ht : findTask (run {} ops) x = some t) (hm : (run {} ops).marker = some m) (hx : m.exch = x)
     (hmrp : t.mrp = defaultMrp)
     (hnow : (run {} ops).now ≤ t.since + rxTimeoutMs t.mrp localActiveMs + sendLadderMs t.mrp) :
@@ -1961,7 +2006,7 @@ example : (run {} [.openWin 7 180, .pbkdf 1 .good none, .tick 38452, .rxTimeout 
     ((run {} [.openWin 7 180, .pbkdf 1 .good none, .tick 38452, .rxTimeout 1]).window.map (·.failures)) = some 1 := by decide
 /-- session parameters advertised by the initiator move the timeout (SAI 1000 ms: the outbound ladder leaves the 4 s active threshold and is then paced by the idle interval) -/
 example : rxTimeoutMs (applyParams defaultMrp (some 1000) none none) localActiveMs = 84936 := by decide
-/-- `idle_handshake_charged_before_marker_expires`: hypotheses satisfiable -/
+/-- `rx_timer_fires_before_marker_expires_default_mrp`: hypotheses satisfiable -/
 example : ∃ t m, findTask (run {} [.openWin 7 180, .pbkdf 1 .good none, .tick 40000]) 1 = some t ∧
     (run {} [.openWin 7 180, .pbkdf 1 .good none, .tick 40000]).marker = some m ∧ m.exch = 1 ∧ t.mrp = defaultMrp ∧
     (run {} [.openWin 7 180, .pbkdf 1 .good none, .tick 40000]).now ≤ t.since + rxTimeoutMs t.mrp localActiveMs + sendLadderMs t.mrp :=
